@@ -14,7 +14,7 @@
    unchanged code does NOT restore, each exhibited as a theorem about the model. *)
 From Errdef Require Import Base.Str Base.Outcome Model.Core Model.GoErrors Model.Prog Model.Tree0 Model.Json
   Model.Convert Model.Unmarshal Model.Decode Model.JsonVal Check.UM Check.C09 Proofs.C09Proofs Proofs.C09Structure
-  Proofs.ValueRoundtrip.
+  Proofs.ValueRoundtrip Proofs.C01Proofs Proofs.C09Identity.
 From Coq Require Import ZArith Reals.
 From Flocq Require Import Core IEEE754.BinarySingleNaN.
 
@@ -73,6 +73,45 @@ Theorem C09_max_float32_refuted :
   try_convert (FScalar {| s_id := 12; s_kind := KFloat32 |}) (DS ty_float64 (SF64 reparsed_max32_bits64)) = Ok None.
 Proof. exact max_float32_not_rebound. Qed.
 Print Assumptions C09_max_float32_refuted.
+
+(* IDENTITY: for every errdef error of the structure theorem's domain whose registration agrees
+   with the sender (the resolver's answer for the kind of each errdef node belongs to the Define
+   that node was created from: [registered]), the restored error carries at every node of its
+   cause tree, in pre-order, the ORIGIN of the corresponding node of the original
+   (rorgs r = torgs (tree_of e)); every definition a restored tree carries is what the resolver
+   returned for a kind (C09_restored_defs_from_resolver, for EVERY configuration and document); and
+   errors.Is on the restored value is "some node carries the target's origin" (C09_restored_is, via
+   C01's theorem).  Hence the same errors.Is answer for every registered definition. *)
+Theorem C09_roundtrip_identity : forall c tbl unks e,
+  foreign_fails c -> is_errdef_error e = true -> mdom (tree_of e) -> udom c (tree_of e) -> registered c (tree_of e) ->
+  exists doc r, marshal_error e = Ok doc /\ unmarshal c (fst (decode tbl doc unks)) = UOk r /\
+                rshape r = tshape (tree_of e) /\ rorgs r = torgs (tree_of e).
+Proof. exact roundtrip_identity. Qed.
+Print Assumptions C09_roundtrip_identity.
+
+Example C09_identity_example :
+  let p := [SDefine "k1" [ONoTrace]; SDefine "k2" []; SLeaf "leaf" "*errors.errorString";
+            SWrap 0 (Some 0) []; SFmtErrorf "w" 1;
+            SJoin 1 [Some 2; None; Some 0] [{| fr_func := "f"; fr_file := "x.go"; fr_line := 3 |}]] in
+  let d i k := {| ud_def := define (1000 + i) (N.to_nat i) k [ONoTrace]; ud_keys := [] |} in
+  let c := {| u_defs := [d 0%N "k1"; d 1%N "k2"]; u_default := None; u_strict := false; u_custom := []; u_sentinels := [] |} in
+  match nth 3 (s_errs (run p)) None with
+  | Some e => registered c (tree_of e) /\ torgs (tree_of e) = [1; 0]%nat
+  | None => False
+  end.
+Proof.
+  vm_compute. repeat split; try (intros ud dd H1 H2; inversion H1; inversion H2; reflexivity); try (intros ud dd H1 H2; discriminate).
+Qed.
+
+Theorem C09_restored_defs_from_resolver : forall c d,
+  (forall r, fst (both c d) = UOk r -> rdefs_ok c r) /\ (forall x, snd (both c d) = UOk x -> cdefs_ok c x).
+Proof. exact unmarshal_defs_from_resolver. Qed.
+Print Assumptions C09_restored_defs_from_resolver.
+
+Theorem C09_restored_is : forall ds r D, consistent ds -> In D ds -> defs_within ds (err_of_rerr r) ->
+  errors_is (err_of_rerr r) (EDefn D) = existsb (fun x => Nat.eqb x (d_org D)) (rorgs r).
+Proof. exact restored_is. Qed.
+Print Assumptions C09_restored_is.
 
 (* its two halves: the JSON step is lossless on the shape; Unmarshal restores the shape *)
 Theorem C09_marshal_decode_shape : forall t, mdom t ->
